@@ -147,6 +147,10 @@ def check(ctx, F, rule, only=None):
                         continue
                     if target is not None and target['func'].get('trait') == ADD_TRAIT and target['func'].get('name') == 'add':
                         continue
+                    if target is not None and target['func'].get('local'):
+                        k = next((i + 1 for i, x in enumerate(target['args']) if x['k'] in ('copy', 'move') and x['p']['l'] in al and 'proj' not in x['p']), None)
+                        if k is not None and add_only_param(F, callee_path(target), k, add_paths):
+                            continue
                     bad.append((fn, '&mut passed to %s' % (callee_path(target) if target else 'unknown use'), a['line']))
         for fn, what, line in bad:
             ctx.violation(rule, '%s:%s' % (vec, fn.path), '%s %s of %s outside ControlPoint::add: the vector may lose its strict time order' % (fn.path, what, vec), fn.where(line))
@@ -154,3 +158,43 @@ def check(ctx, F, rule, only=None):
             n_ok += 1
             ctx.ok(rule, 'only-add:' + vec, '%s of Beatmap / BeatmapState is mutated only through %s::add' % (vec, elem.split('::')[-1]))
     return n_ok
+
+
+def add_only_param(F, path, k, add_paths, depth=0):
+    """local function `path` mutates the vector behind its &mut parameter k only by handing it to ControlPoint::add (or to
+    another such helper); shared re-borrows (look-ups) are fine"""
+    h = F.fn(path)
+    if h is None or depth > 2:
+        return False
+    al = {k}
+    grew = True
+    while grew:
+        grew = False
+        for bi, si, s2 in h.assigns():
+            if 'proj' in s2['p'] or s2['p']['l'] in al:
+                continue
+            rv2 = s2['rv']
+            src = None
+            if rv2['k'] == 'use' and rv2['op']['k'] in ('copy', 'move'):
+                src = rv2['op']['p']
+            elif rv2['k'] == 'ref' and rv2.get('bk') in ('mut', 'Mut', 'two-phase', 'TwoPhase'):
+                src = rv2['p']
+            if src is not None and src['l'] in al and all(e == '*' for e in src.get('proj', [])):
+                al.add(s2['p']['l'])
+                grew = True
+    # no write through the pointer
+    for bi, si, s2 in h.assigns():
+        if s2['p']['l'] in al and s2['p'].get('proj'):
+            return False
+    handed = 0
+    for bi, t in h.calls():
+        for i, x in enumerate(t['args']):
+            if x['k'] in ('copy', 'move') and x['p']['l'] in al and 'proj' not in x['p']:
+                cp = callee_path(t)
+                if cp in add_paths or (t['func'].get('trait') == ADD_TRAIT and t['func'].get('name') == 'add'):
+                    handed += 1
+                elif t['func'].get('local') and add_only_param(F, cp, i + 1, add_paths, depth + 1):
+                    handed += 1
+                else:
+                    return False
+    return handed > 0
